@@ -41,7 +41,10 @@ FLOATS = ["0000000000000000", "8000000000000000", "3ff0000000000000", "bff800000
           "47f0000000000000", "36a0000000000000", "369fffffffffffff", "3690000000000001", "3690000000000000", "4340000000000001",
           "4330000000000000", "7ff0000000000000", "fff0000000000000", "7ff8000000000000", "7ff0000000000001", "40091eb851eb851f",
           "3fb999999999999a", "c05ec00000000000", "380fffffffffffff", "3810000000000000"]
-STRINGS = ["", "a", "ab", "abc", "é", "éa", "€", "😀", "😀😀", "a😀b€", "\u0301e", "hello world", "!", " ", "\n", "\"q\"", "`b`", "\\", "\u0000", "\t"]
+STRINGS = ["", "a", "ab", "abc", "é", "éa", "€", "😀", "😀😀", "a😀b€", "\u0301e", "hello world", "!", " ", "\n", "\"q\"", "`b`", "\\", "\u0000", "\t",
+           # three and more characters with the multi-byte ones late (character count vs byte count of a tail), and long strings of
+           # mixed byte widths (anything that cuts a text at a byte offset)
+           "aaé", "ab€", "abc😀", "jortés", "aé€😀", "\u5b57" * 22, "\u043a\u043b\u044e\u0447\u2192" * 6, "a\u00e9" * 40, "x" * 63 + "\u20ac" + "tail", "x" * 62 + "\U0001f600" + "y" * 70]
 NONSCALAR = [None, True, False, [], [{"i": "1"}], {"m": []}, {"m": [["a", {"i": "1"}]]}, [None, None]]
 
 
@@ -111,7 +114,7 @@ def run(ctx, H):
         "exhaustive": True,
         "rule": "all 24 integer targets x every integer in [%d, %d] (exhaustive, %d runs after run-length templating, re-expanded and compared integer by integer in Coq) "
                 "plus %d explicit cases: every scalar target x {2^k+-1 (k<=64), every type's MIN/MAX+-1, 28 float bit patterns incl. subnormal/huge/NaN/inf/-0.0, "
-                "20 strings of 0..4 scalar values incl. multi-byte, every non-scalar kind}; every input is distinct and exercises an accept/reject decision" % (lo, hi, nruns, len(cases)),
+                "30 strings of 0..140 scalar values incl. multi-byte ones late in the string and long strings of mixed byte widths, every non-scalar kind}; every input is distinct and exercises an accept/reject decision" % (lo, hi, nruns, len(cases)),
         "samples": [{"type": "u8", "runs": sweeps[0]["runs"]}, cases[5].describe(), cases[-2].describe()],
         "input_distribution": E.distribution(cases, obs),
         "correspondence_disagreements": sweep_corr + bads[0].total, "monitor_failures": sweep_mon + bads[1].total,
